@@ -239,6 +239,76 @@ pub fn run_case(sub: u64, acc: &mut Acc) {
         acc.samples.push(json!({"subseed": sub, "pattern": case.pattern, "cfg": case.cfg.to_json(), "input": show(&case.data), "uninterrupted_events": brief(&full.evs),
             "crash_points": format!("every event index 0..{} x {{stop,error}} for slice and reader; every read index x {{error,interrupted}}", full.evs.len() - 1)}));
     }
+    // the convenience sinks of grep-searcher (closures over matched lines): a stop answered at the
+    // k-th matched line ends the search there, also when that line is not valid UTF-8
+    if case.cfg.bin == Bin::None && rng.chance(1, 3) {
+        let mut c = case.clone();
+        c.cfg.line_number = true;
+        c.cfg.passthru = false;
+        let lossy_data = {
+            // make one byte of every third line invalid UTF-8 (not inside a "foo")
+            let mut d = c.data.clone();
+            let mut i = 0;
+            let mut line = 0;
+            while i < d.len() {
+                if d[i] == b'\n' {
+                    line += 1;
+                } else if line % 3 == 0 && matches!(d[i], b'b' | b'x' | b'z' | b'q') {
+                    d[i] = 0xFF;
+                    line += 1000003; // one per line
+                }
+                i += 1;
+            }
+            d
+        };
+        for (name, data) in [("bytes", c.data.clone()), ("lossy", lossy_data)] {
+            let cc = Case { data: data.clone(), ..c.clone() };
+            let Ok(matcher) = build_matcher(&cc) else { continue };
+            let full = run(&cc, &Knobs::default(), &Strategy::Slice, None, None);
+            let total = full.evs.iter().filter(|e| matches!(e, Ev::Match { .. })).count();
+            if full.res.is_err() || total == 0 {
+                continue;
+            }
+            for k in [1usize, (total + 1) / 2, total] {
+                for reader in [false, true] {
+                    acc.evals += 1;
+                    acc.faults.inc("closure-sink-stop-at-kth-match");
+                    let mut calls = 0usize;
+                    let mut searcher = build_searcher(&cc.cfg, &Knobs::default());
+                    let res = {
+                        let f = |_ln: u64, _l: &[u8]| -> Result<bool, std::io::Error> {
+                            calls += 1;
+                            Ok(calls < k)
+                        };
+                        let h = History::plain(Style::gen(&mut rng), rng.next());
+                        match (name, reader) {
+                            ("bytes", false) => searcher.search_slice(&matcher, &data, grep_searcher::sinks::Bytes(f)),
+                            ("bytes", true) => searcher.search_reader(&matcher, SimReader::new(&data, &h, b'\n'), grep_searcher::sinks::Bytes(f)),
+                            (_, false) => {
+                                let mut g = f;
+                                searcher.search_slice(&matcher, &data, grep_searcher::sinks::Lossy(|ln, l: &str| g(ln, l.as_bytes())))
+                            }
+                            (_, true) => {
+                                let mut g = f;
+                                searcher.search_reader(&matcher, SimReader::new(&data, &h, b'\n'), grep_searcher::sinks::Lossy(|ln, l: &str| g(ln, l.as_bytes())))
+                            }
+                        }
+                    };
+                    // (in multi-line mode one call may cover several matched lines: only "not more than asked" is demanded there)
+                    let ok = res.is_ok() && calls <= k && (calls == k.min(total) || cc.cfg.multi_line);
+                    if !ok && acc.violations.iter().filter(|v| v.class.starts_with("closure-sink")).count() < 10 {
+                        acc.violations.push(Violation {
+                            property: "C16".into(),
+                            class: format!("closure-sink-stop-ignored:{name}"),
+                            summary: format!("sinks::{} asked to stop at matched line {k} of {total}: the closure was called {calls} times, result {:?}", if name == "bytes" { "Bytes" } else { "Lossy" }, res.map_err(|e| e.to_string())),
+                            subseed: sub,
+                            replay: json!({"engine": "iosim", "kind": "c16", "case": cc.to_json(), "knobs": knobs_json(&Knobs::default()), "strategy": Strategy::Slice.to_json(), "crash_point": Value::Null, "closure_sink": name, "k": k}),
+                        });
+                    }
+                }
+            }
+        }
+    }
     // printers: match limit for every N, failing writer
     // (also with multi-line mode requested, as long as the pattern cannot match a line terminator:
     // the searcher then works line by line under a multi-line configuration)
@@ -529,6 +599,12 @@ pub fn replay(v: &Value) -> Option<(String, String)> {
         let mut rng = Rng::new(v["subseed"].as_u64().unwrap_or(1) ^ 0xC16);
         printer_leg(v["subseed"].as_u64().unwrap_or(1), &case, &mut rng, &mut acc);
         return acc.violations.first().map(|x| (x.class.clone(), x.summary.clone()));
+    }
+    if v["closure_sink"].is_string() {
+        // re-run the whole generated case and report the closure-sink verdict
+        let mut acc = Acc::new();
+        run_case(v["subseed"].as_u64().unwrap_or(1), &mut acc);
+        return acc.violations.iter().find(|x| x.class.starts_with("closure-sink")).map(|x| (x.class.clone(), x.summary.clone()));
     }
     let knobs = knobs_from_json(&v["knobs"]);
     let strat = Strategy::from_json(&v["strategy"]);
